@@ -16,7 +16,7 @@ func init() {
 			"(a) gates on every success exit — known store type (validator true only for an element of Types), certified file-name validator on the store name, SysPath error, " +
 			"os.Lstat (not Stat) error on the path that is listed, directory and not symlink, ReadDir error, non-empty result (the returned slice is tested, or the listing is tested and every completed iteration appends at least one certificate); " +
 			"per directory entry (every completed iteration; an abandoned iteration cannot reach success) — not a directory and not a symlink judged on the entry itself (DirEntry or Lstat, never a symlink-following Stat), " +
-			"read error, at least one certificate, every certificate CA or self-signed (a loop over all certificates with the disjunctive gate, inline or behind helpers whose success requires it), and for tsa stores every certificate a self-signed root; " +
+			"read error, at least one certificate, every certificate CA or self-signed (a loop over all certificates with the disjunctive gate, inline, behind helpers whose success requires it or decided by module predicates that answer so only behind it), and for tsa stores every certificate a self-signed root; " +
 			"(b) exact set: the returned slice starts empty and is appended only from ReadCertificateFile(Join(store path, entry.Name())) with store path = SysPath(X509TrustStoreDir(type, name)) = the directory listed, layout truststore/x509; every helper between hands back what it read; " +
 			"(c) every failing exit returns a nil slice; no failing edge continues the loop.",
 		NotCov:  "certificate parsing (notation-core-go ReadCertificateFile, crypto/x509); special files other than directories and symlinks.",
@@ -218,7 +218,7 @@ func runC13(c *Ctx) {
 			labels[afI.toG(l)] = st
 		}
 	}
-	hasIt := func(subs ...string) bool { _, ok := hasLabel(labels, subs...); return ok }
+	hasIt := func(subs ...string) bool { return c13HasLabel(labels, subs...) }
 	// regular file judged on the entry itself
 	formA := hasIt("F(call:invoke:os.DirEntry.IsDir("+ent) && hasIt("EQ((call:invoke:os.DirEntry.Type("+ent, "& const:134217728),const:0)")
 	formB := hasIt("T(call:(io/fs.FileMode).IsRegular(call:invoke:os.DirEntry.Type(" + ent)
@@ -276,7 +276,10 @@ func runC13(c *Ctx) {
 		}
 	}
 	c.slot(okLen, 1, "entry/at-least-one-certificate", "per entry: the file holds at least one certificate", lsite, "an empty file is skipped silently")
-	// every certificate CA or self-signed
+	// every certificate CA or self-signed. The two alternatives are facts about THE certificate of the iteration (rendered with the loop's
+	// own index, c13ElemPrefix); an edge carries one of them by its label or because a module predicate that decides it
+	// (`isSelfSigned(cert)`, `acceptable(cert)`, `!rejected(cert)`, `check(cert) err == nil`) gives that answer only behind the
+	// fact, with its parameter bound to this certificate (extra_c13.go, fourth pass: c13GateCut)
 	{
 		u := &c13Univ{c: c, certsG: certs, minEdges: 2, memo: map[*c13Inst]map[edgeKey]bool{}, tails: map[*c13Inst]map[*ssa.Call]bool{}, busy: map[*c13Inst]bool{},
 			gate: func(_ *c13Inst, el string) EdgeSel {
